@@ -713,6 +713,25 @@ def _copy_into_itself(req, impl):
         return False
 
 
+def _copy_src_entries(req, impl):
+    """number of entries strictly below the (lexically resolved) source of a copy in the dumped state"""
+    import posixpath
+    try:
+        a = req.split(' ')
+        src = unhx(a[1])
+        recs = impl.split(' ## ', 1)[1].split('|')
+        cwd = bytes.fromhex(recs[0].split(' ')[1]).decode('utf8', 'replace')
+        for pr in ('file://', 'ftp://', 'http://', 'https://'):
+            if src.startswith(pr):
+                src = src[len(pr):]
+        k = posixpath.normpath(posixpath.join(cwd, src)).replace('//', '/')
+        kh = k.encode().hex()
+        pre = kh if kh == '2f' else kh + '2f'
+        return sum(1 for r in recs if r.startswith('E ') and r.split(' ')[1].startswith(pre) and r.split(' ')[1] != kh)
+    except Exception:
+        return 0
+
+
 def _only_link_kinds_differ(a, b):
     """two state dumps differ only in the d/f/files fields of link entries"""
     import re
@@ -745,8 +764,8 @@ def cmp_line(req, impl, model, cls=None):
     # links are ordered arbitrarily
     if op in UNORDERED_OPS and io == mo and io.startswith('err'):
         return 'dead'     # same error, but which entries were processed before it depends on the set order
-    if op in ('copy', 'copy_b') and io.startswith('err') and mo.startswith('err'):
-        return 'dead'     # a tree copy that fails: WHICH entry fails first (and with which kind) depends on the set order
+    if op in ('copy', 'copy_b') and io.startswith('err') and mo.startswith('err') and _copy_src_entries(req, impl) >= 2:
+        return 'dead'     # a copy of a tree with several entries that fails: WHICH entry fails first (and with which kind) depends on the set order
     if op in UNORDERED_OPS and 'LinkLooping' in io and 'LinkLooping' in mo:
         return 'dead'
     a = req.split(' ')
